@@ -5,9 +5,9 @@ operands, the constants that drive inferred operand widths, .incbin length (blob
 Enumerated: program skeletons (statement kinds between labels, wrappers, name reuse).
 
 Observation uses the public output only: every label is followed by a one-byte marker whose
-value is a symbolic tag and by `.dl label`; every *= / @= is followed by a marker too.  The
-program is assembled twice with different tag holes; the positions where the two outputs differ
-are the marker positions (no knowledge of statement sizes is needed).  A label must equal the
+value is a symbolic tag and by `.dl label`; every *= / @= is followed by a marker too.  The markers are
+found in the real output by their tag variable (symbolic run) or by assembling a second time with
+complemented tags (concrete replay); no knowledge of statement sizes is needed.  A label must equal the
 run address of its marker byte = address of the segment start advanced by the distance between
 the two markers in the file (textbook advance formula)."""
 import itertools
@@ -23,7 +23,7 @@ PROPERTY = "C02"
 
 META = {
     "bounds": {
-        "quick": "programs `*= p0; c0 := V0; back: ...`: every single item and every pair whose first item is width- or position-relevant, over 17 item kinds (inferred-width instructions from a := constant / backward label / macro parameter / loop variable, explicit sizes, data, .ascii, .text, .incbin of symbolic length < 0x120, *= and @= moves into ROM and RAM), each item followed by a label; 6 wrappers; 10 name-reuse patterns; LoROM and HiROM; p0, move operands, V0 (24 bit) symbolic",
+        "quick": "programs `*= p0; c0 := V0; back: ...`: every single item and every pair starting with {inferred constant, inferred label, .incbin, *=, @= RAM} over 17 item kinds (LoROM; singles under HiROM) (inferred-width instructions from a := constant / backward label / macro parameter / loop variable, explicit sizes, data, .ascii, .text, .incbin of symbolic length < 0x120, *= and @= moves into ROM and RAM), each item followed by a label; 6 wrappers; 10 name-reuse patterns; LoROM and HiROM; p0, move operands, V0 (24 bit) symbolic",
         "thorough": "sequences of <= 3 items + VERIF_SEED-drawn 300 programs of 4-5 items inside nested wrappers",
     },
     "outside": ["programs that leave the mapped ROM range", "forward references with inferred width (rejected by design)", ".incbin longer than the bound", "duplicate definitions in one scope"],
@@ -237,16 +237,20 @@ def jobs(tier, seed):
         seqs += list(itertools.product(ITEMS, repeat=k))
     interesting = {"inf-const", "inf-const-x", "inf-back", "inf-expr", "incbin", "text", "star", "at-rom", "at-ram"}
     if tier == "quick":
-        seqs = [s for s in seqs if len(s) == 1 or s[0] in interesting]
+        first = {"inf-const", "inf-back", "incbin", "star", "at-ram"}
+        seqs = [s for s in seqs if len(s) == 1 or (s[0] in first and s[1] != s[0])]
     else:
         seqs = [s for s in seqs if len(s) < 3 or (len(set(s)) >= 2 and s[0] in interesting and s[1] in interesting)]
     for rom in ("low", "high"):
         for s in seqs:
-            if rom == "high" and len(s) > 1 and not (set(s) & set(MOVES) or "incbin" in s or "inf-back" in s):
+            if rom == "high" and len(s) > 1 and (tier == "quick" or not (set(s) & set(MOVES) or "incbin" in s or "inf-back" in s)):
                 continue
             out.append({"id": f"{rom}/seq/{'+'.join(s)}", "rom": rom, "kind": "seq", "items": list(s)})
         for w in ("block", "scope", "macro", "macro2", "for", "if"):
-            for body in (["inf-const"], ["inf-const", "at-ram"], ["incbin", "inf-back"], ["star", "inf-const-x"]):
+            bodies = (["inf-const"], ["inf-const", "at-ram"], ["incbin", "inf-back"], ["star", "inf-const-x"])
+            if tier == "quick":
+                bodies = bodies[1:3] if rom == "low" else bodies[:1]
+            for body in bodies:
                 out.append({"id": f"{rom}/{w}/{'+'.join(body)}", "rom": rom, "kind": "seq", "items": body, "wrapper": w})
         for pat in REUSE:
             out.append({"id": f"{rom}/reuse/{pat}", "rom": rom, "kind": "reuse", "pattern": pat})
@@ -286,18 +290,20 @@ def run(spec, cx):
             cx.assume(z3.And(L.is_ram(g, t), (t & 0xFFFF) <= 0xF000))
     sa, sb = dict(syms), dict(syms)
     for t in b.tags:
-        x = cx.int(t + "a", 0, 255)
-        y = cx.int(t + "b", 0, 255)
-        cx.assume(cx.t(t + "a") != cx.t(t + "b"))
-        sa[t + "a"], sb[t + "b"] = x, y
+        sa[t + "a"] = cx.int(t + "a", 0, 255)
+        if not cx.symbolic:
+            sb[t + "b"] = sa[t + "a"] ^ 0xFF
     uses_bin = any(st[0] == "line" and "incbin" in st[1] for st in _flat(stmts))
     files = {"t.tbl": "41=a\n4243=b\n"}
     if uses_bin:
         n = cx.int("n", 0, 0x11F)
         files["f.bin"] = cx.blob("f.bin", n)
     ra = _asm(render(stmts, "a") + "\n", sa, spec["rom"], cx, files)
-    rb = _asm(render(stmts, "b") + "\n", sb, spec["rom"], cx, files)
-    return (ra, rb)
+    if not cx.symbolic:
+        # concrete mode (cross-check / replay): markers are located by assembling a second time
+        # with complemented tag values; symbolic mode recognises them by their tag variable
+        cx.aux = _asm(render(stmts, "b") + "\n", sb, spec["rom"], cx, files)
+    return ra
 
 
 def _flat(stmts):
@@ -324,19 +330,38 @@ def _atoms(block):
 
 def check(spec, cx, out):
     g = L.GEOMS[spec["rom"]]
-    ra, rb = out
+    ra = out
     b, stmts = program(spec)
-    if ra[0] != "ok" or rb[0] != "ok":
-        if spec["kind"] == "reuse" and ra[0] == rb[0]:
+    if ra[0] != "ok":
+        if spec["kind"] == "reuse":
             # a name re-defined in an inner scope: when the operand width inferred while labels are
             # resolved cannot agree with the emitted one, failing is the required behaviour
             return [("fails-instead-of-shifting", z3.BoolVal(True))]
         return [("program-assembles", z3.BoolVal(False))]
-    blocks_a, blocks_b = ra[1], rb[1]
-    if len(blocks_a) != len(blocks_b):
-        return [("layout-independent-of-marker-values", z3.BoolVal(False))]
-    # marker positions = where the two outputs differ (syntactically different byte terms)
+    blocks_a = ra[1]
     found = []   # (block index, storage offset term of the marker, [3 following byte terms] or None)
+    if cx.symbolic:
+        from symx.core import vars_of
+
+        tagvars = {}
+        for t in b.tags:
+            for vid in vars_of(cx.t(t + "a")):
+                tagvars[vid] = t
+
+        def is_marker(i, term, other):
+            vs = vars_of(term)
+            return len(vs) == 1 and next(iter(vs)) in tagvars
+
+        blocks_b = blocks_a
+    else:
+        rb = getattr(cx, "aux", None)
+        if rb is None or rb[0] != "ok" or len(rb[1]) != len(blocks_a):
+            return [("layout-independent-of-marker-values", z3.BoolVal(False))]
+        blocks_b = rb[1]
+
+        def is_marker(i, term, other):
+            return not z3.simplify(term).eq(z3.simplify(other))
+
     for bi, ((aa, da), (ab, db)) in enumerate(zip(blocks_a, blocks_b)):
         xa, xb = _atoms(da), _atoms(db)
         if len(xa) != len(xb):
@@ -346,8 +371,7 @@ def check(spec, cx, out):
             if ea[0] == "blob":
                 pos = pos + ea[1]
                 continue
-            ta, tb = z3.simplify(ea[1]), z3.simplify(eb[1])
-            if not ta.eq(tb):
+            if is_marker(i, ea[1], eb[1]):
                 nxt = [e[1] for e in xa[i + 1: i + 4] if e[0] == "b"]
                 found.append((bi, pos, nxt if len(nxt) == 3 else None))
             pos = pos + 1
